@@ -202,15 +202,18 @@ func New(o Options) (*Session, error) {
 		// the final-chunk and ping flags, and whether the leak detector
 		// matched (application plaintext, auth data, the passphrase
 		// entropy, a static public or private key)
-		kind, fin, ping := -1, 0, 0
+		kind, fin, ping, seq := -1, 0, 0, -1
 		if len(e.Head) > 0 {
 			kind = int(e.Head[0])
+		}
+		if len(e.Head) > 1 {
+			seq = int(e.Head[1])
 		}
 		if kind == 2 && len(e.Head) >= 4 { // gbn.DATA
 			fin, ping = int(e.Head[2]), int(e.Head[3])
 		}
 		s.Rec.Emit("relay", "op", e.Ev, "sid", s.SidName(e.SID), "len", e.Len, "err", e.Err,
-			"kind", kind, "fin", fin, "ping", ping, "plain", b2i(e.Plain))
+			"kind", kind, "seq", seq, "fin", fin, "ping", ping, "plain", b2i(e.Plain))
 	}
 	var err error
 	s.Srv, err = mailbox.NewVerifServer(s.Host, s.S.Data, s.Relay, func(st mailbox.ServerStatus) {
@@ -332,14 +335,28 @@ func (s *Session) Serve() {
 	}()
 }
 
+// loggedConn is the transport connection as the Noise layer sees it, with
+// every Write (one control message = one GBN message each) logged before it
+// is passed on.
+type loggedConn struct {
+	mailbox.ProxyConn
+	c *Conn
+}
+
+func (l *loggedConn) Write(b []byte) (int, error) {
+	l.c.S.Rec.Emit("kitWrite", "side", l.c.Side, "conn", l.c.ID, "len", len(b))
+	return l.ProxyConn.Write(b)
+}
+
 func (s *Session) handshake(c *Conn, p *Party) {
 	pat := p.Data.HandshakePattern().Name
 	var sec net.Conn
 	var err error
+	lc := &loggedConn{ProxyConn: c.Raw.(mailbox.ProxyConn), c: c}
 	if c.Side == "s" {
-		sec, _, err = p.Noise.ServerHandshake(c.Raw)
+		sec, _, err = p.Noise.ServerHandshake(lc)
 	} else {
-		sec, _, err = p.Noise.ClientHandshake(s.ctx, "", c.Raw)
+		sec, _, err = p.Noise.ClientHandshake(s.ctx, "", lc)
 	}
 	c.Pattern = string(pat)
 	c.HsErr = err
@@ -405,12 +422,13 @@ func (s *Session) DialPatience(who string, k int, patience time.Duration) *Conn 
 	close(c.tagKnown)
 	s.handshake(c, p)
 	if c.Sec != nil {
-		// the client opens every connection with its stream tag
+		// the client opens every connection with its stream tag: stream
+		// positions [0, 8) of its direction
 		var hdr [8]byte
 		binary.BigEndian.PutUint64(hdr[:], c.Tag)
-		if _, err := c.Sec.Write(hdr[:]); err != nil {
-			s.Rec.Emit("writeErr", "side", who, "conn", c.ID, "err", errStr(err))
-		}
+		s.Rec.Emit("writeCall", "side", who, "conn", c.ID, "pos", 0, "len", 8)
+		m, err := c.Sec.Write(hdr[:])
+		s.Rec.Emit("writeRet", "side", who, "conn", c.ID, "pos", 0, "len", 8, "n", m, "err", errStr(err))
 	}
 	return c
 }
@@ -441,6 +459,22 @@ func (s *Session) Accepted() *Conn {
 	}
 }
 
+// tagLen is the length of the tag at the start of the stream this side reads,
+// myTagLen of the stream it writes (only the client's stream has one).
+func (c *Conn) tagLen() int {
+	if c.Side == "s" {
+		return 8
+	}
+	return 0
+}
+
+func (c *Conn) myTagLen() int {
+	if c.Side == "s" {
+		return 0
+	}
+	return 8
+}
+
 func (c *Conn) peerDir() byte {
 	if c.Side == "s" {
 		return 'c'
@@ -465,6 +499,9 @@ func (c *Conn) readLoop() {
 		got := 0
 		for got < 8 {
 			n, err := c.Sec.Read(hdr[got:])
+			if n > 0 {
+				c.S.Rec.Emit("read", "side", c.Side, "conn", c.ID, "pos", got, "len", n, "buf", 8-got, "ok", 1)
+			}
 			got += n
 			if err != nil {
 				c.fail(err)
@@ -484,8 +521,8 @@ func (c *Conn) readLoop() {
 			c.rOff += uint64(n)
 			c.mu.Unlock()
 			Fill(want[:n], c.Tag, c.peerDir(), off)
-			c.S.Rec.Emit("read", "side", c.Side, "conn", c.ID, "off", int(off), "len", n,
-				"ok", b2i(bytes.Equal(buf[:n], want[:n])))
+			c.S.Rec.Emit("read", "side", c.Side, "conn", c.ID, "pos", int(off)+c.tagLen(), "len", n,
+				"buf", len(buf), "ok", b2i(bytes.Equal(buf[:n], want[:n])))
 		}
 		if err != nil {
 			c.fail(err)
@@ -514,14 +551,14 @@ func (c *Conn) Write(n int) error {
 	off := c.wOff
 	c.mu.Unlock()
 	Fill(p, c.Tag, c.myDir(), off)
-	c.S.Rec.Emit("writeCall", "side", c.Side, "conn", c.ID, "off", int(off), "len", n)
+	c.S.Rec.Emit("writeCall", "side", c.Side, "conn", c.ID, "pos", int(off)+c.myTagLen(), "len", n)
 	m, err := c.Sec.Write(p)
 	c.mu.Lock()
 	if err == nil {
 		c.wOff += uint64(n)
 	}
 	c.mu.Unlock()
-	c.S.Rec.Emit("writeRet", "side", c.Side, "conn", c.ID, "off", int(off), "len", n, "n", m,
+	c.S.Rec.Emit("writeRet", "side", c.Side, "conn", c.ID, "pos", int(off)+c.myTagLen(), "len", n, "n", m,
 		"err", errStr(err))
 	return err
 }
